@@ -66,6 +66,9 @@ class get_geophires_result(Contract):
     params = dict(self=ObjAt("model.client"), input_params=ObjAt("model.params"))
     result = None
     may_raise = True
+    assumptions = ("ASSUMED contracts on dependencies (not verified): GEOPHIRESv3.main 'changes the working directory, may "
+                   "raise any exception or exit with any status, does not touch sys.argv' (read off its body); the "
+                   "GeophiresXResult constructor returns an opaque object and touches no process state",)
     inline_callees = ("geophires_x_client/geophires_input_parameters.py::GeophiresInputParameters.as_file_path",
                       "geophires_x_client/geophires_input_parameters.py::GeophiresInputParameters.get_output_file_path",
                       "geophires_x_client/geophires_input_parameters.py::GeophiresInputParameters.__hash__")
